@@ -3,7 +3,7 @@ C05.I/C05.K: path-policy analysis of the walks on the hard-coded sequences; C05.
 run-time generated sequences handed to the decoder are the ones the walk used and are closed cycles (the decoder
 tracks the complementation mask per position, which is only valid if every flip cycle returns to the start
 before the next swap)."""
-from .C04 import analyse, generated
+from .C04 import analyse, generated, step_kernels
 
 LEVEL = "other"
 
@@ -11,3 +11,5 @@ LEVEL = "other"
 def run(chk):
     analyse(chk, "C05")
     generated(chk, "C05.Q")
+    # the certificate decoder replays generator indices: the steps the walk applied must be those generators (n = 7, 8)
+    step_kernels(chk, "C05.S")
